@@ -461,7 +461,7 @@ def run_reactor(ctx: Any, traces: list[dict] | None = None, n: int | None = None
     ctx.count("x01_traces", "compared", len(batch))
     outs = ctx.driver.ask([t["req"] for t in batch])
     for t, out in zip(batch, outs):
-        rep0 = {"scenario": t["sc"]}
+        rep0 = {"x01_scenario": t["sc"]}
         if not out or out[0] != "ok":
             ctx.tie_fail("X01 driver rejected a history", {**rep0, "answer": out})
             continue
@@ -551,7 +551,7 @@ def selftest(n: int = 60, seed: int = 0) -> int:
         print("FAIL", f.kind, f.what)
         print(" impl ", json.dumps(rep.get("impl"), sort_keys=True)[:1500])
         print(" model", json.dumps(rep.get("model"), sort_keys=True)[:1500])
-        print(" at", (rep.get("input") or {}).get("step"), "seed", ((rep.get("input") or {}).get("scenario") or {}).get("seed"))
+        print(" at", (rep.get("input") or {}).get("step"), "seed", ((rep.get("input") or {}).get("x01_scenario") or {}).get("seed"))
     return 1 if ctx.failures else 0
 
 
